@@ -53,6 +53,8 @@ impl RngSpec {
 pub enum Draw {
     U32(u32),
     U64(u64),
+    /// a `fill_bytes` request of this many bytes
+    Bytes(u32),
 }
 
 /// Raised (as a panic payload) when the code under test asks for more draws
@@ -233,10 +235,34 @@ impl RngCore for SimRng {
         self.raw(false)
     }
 
+    /// One typed draw `bytes(n)`: a wrapper that splits a byte request into
+    /// word requests (or the other way round) changes the typed trace.
     fn fill_bytes(&mut self, dst: &mut [u8]) {
+        self.draws += 1;
+        if self.draws > self.cap {
+            std::panic::panic_any(Starvation);
+        }
+        self.digest = mix(self.digest, 0xB17E_5000_0000_0000 ^ dst.len() as u64);
+        let mut acc = 0u64;
         for chunk in dst.chunks_mut(8) {
-            let w = self.raw(false).to_le_bytes();
-            chunk.copy_from_slice(&w[..chunk.len()]);
+            let w = if self.pos < self.prefix.len() {
+                let w = self.prefix[self.pos];
+                self.pos += 1;
+                w
+            } else {
+                let w = self.src.next_u64();
+                if self.q16 > 0 {
+                    let _ = self.src.next_u64();
+                }
+                w
+            };
+            acc = mix(acc, w);
+            chunk.copy_from_slice(&w.to_le_bytes()[..chunk.len()]);
+        }
+        self.prev = acc;
+        self.digest = mix(self.digest, acc);
+        if self.record {
+            self.trace.push(Draw::Bytes(dst.len() as u32));
         }
     }
 }
